@@ -99,6 +99,9 @@ type G struct {
 	point  string
 	ch     chan struct{}
 	parked bool
+	// cond, when non-nil, must hold before the goroutine can be scheduled (it
+	// waits for a simulator-visible mutex)
+	cond func() bool
 	// stalledUntil: not schedulable before this decision index (see BubbleConfig.Stall)
 	stalledUntil int
 	stallSet     bool
@@ -237,6 +240,28 @@ func (b *Bubble) yield(point, id string) {
 	<-ch
 }
 
+// block parks the calling goroutine at point until cond holds (the wait for a
+// simulator-visible mutex: verifhooks.SetBlock).
+func (b *Bubble) block(point string, cond func() bool) {
+	gid := goid.Get()
+	b.mu.Lock()
+	g := b.gs[gid]
+	if g == nil || g != b.running {
+		if b.fault == "" {
+			b.fault = fmt.Sprintf("a goroutine that is not the running one waits for a lock at %q (running=%v)", point, b.runningName())
+		}
+		b.mu.Unlock()
+		return
+	}
+	ch := make(chan struct{})
+	g.ch = ch
+	g.point = point
+	g.cond = cond
+	g.parked = true
+	b.mu.Unlock()
+	<-ch
+}
+
 func (b *Bubble) runningName() string {
 	if b.running == nil {
 		return "<scheduler>"
@@ -248,6 +273,9 @@ func (b *Bubble) enabled(g *G) bool {
 	if !g.parked {
 		return false
 	}
+	if g.cond != nil && !g.cond() {
+		return false
+	}
 	if f := b.cfg.Guards[g.point]; f != nil && !f() {
 		return false
 	}
@@ -256,6 +284,7 @@ func (b *Bubble) enabled(g *G) bool {
 
 func (b *Bubble) release(g *G) {
 	g.parked = false
+	g.cond = nil
 	g.stallSet = false
 	b.running = g
 	close(g.ch)
@@ -484,6 +513,7 @@ func RunBubble(t *testing.T, cfg BubbleConfig, clients []Client, events []Event)
 	sort.SliceStable(b.events, func(i, j int) bool { return b.events[i].At < b.events[j].At })
 	current = b
 	verifhooks.SetYield(b.yield)
+	verifhooks.SetBlock(b.block)
 	func() {
 		defer func() {
 			if r := recover(); r != nil {
@@ -499,6 +529,7 @@ func RunBubble(t *testing.T, cfg BubbleConfig, clients []Client, events []Event)
 		synctest.Test(t, func(*testing.T) { b.loop(clients) })
 	}()
 	verifhooks.SetYield(nil)
+	verifhooks.SetBlock(nil)
 	current = nil
 	if b.fault != "" {
 		panic(HarnessFault{b.fault})
